@@ -71,6 +71,116 @@ type c32Restore struct {
 type c32In struct {
 	Import  *c32Import  `json:"import,omitempty"`
 	Restore *c32Restore `json:"restore,omitempty"`
+	Round   *c32Round   `json:"round,omitempty"`
+}
+
+// export -> import round trip over real snapshot files
+type c32Round struct {
+	From  uint64     `json:"from"`
+	To    uint64     `json:"to"`
+	Snaps []c32RSnap `json:"snaps"`
+}
+
+type c32RSnap struct {
+	Name    string             `json:"name"`
+	Version string             `json:"version"`
+	Rev     int                `json:"rev"`
+	Archive map[string]c32Tree `json:"archive"`
+}
+
+func c32ExecRound(in *c32Round) vh.Out {
+	root, err := os.MkdirTemp(os.Getenv("VERIF_SCRATCH_DIR"), "c32x-")
+	if err != nil {
+		panic(err)
+	}
+	defer os.RemoveAll(root)
+	dirs.SetRootDir(root)
+	defer dirs.SetRootDir("/")
+	S := dirs.SnapshotsDir
+	os.MkdirAll(S, 0700)
+	sdir := c32Comps(S)
+	fileOf := map[string]string{} // rest -> Coq pair
+	var files []string
+	for _, sn := range in.Snaps {
+		data := c32Tgz(sn.Archive)
+		meta := client.Snapshot{SetID: in.From, Time: time.Unix(1700000000, 0), Snap: sn.Name, Revision: snap.R(sn.Rev), Version: sn.Version,
+			SHA3_384: map[string]string{archiveName: c32Sha3(data)}}
+		fn := Filename(&meta)
+		zf, _ := os.Create(fn)
+		zw := zip.NewWriter(zf)
+		w, _ := zw.CreateHeader(&zip.FileHeader{Name: archiveName, Method: zip.Store})
+		w.Write(data)
+		metaBytes, _ := json.Marshal(&meta)
+		w, _ = zw.Create(metadataName)
+		w.Write(metaBytes)
+		w, _ = zw.Create(metaHashName)
+		io.WriteString(w, c32Sha3(metaBytes))
+		zw.Close()
+		zf.Close()
+		content, _ := os.ReadFile(fn)
+		rest := strings.TrimPrefix(filepath.Base(fn), fmt.Sprintf("%d_", in.From))
+		fileOf[rest] = "(" + vh.CoqBytes(rest) + ", " + vh.CoqBytes(string(content)) + ")"
+	}
+	se, err := NewSnapshotExport(context.Background(), in.From)
+	if err != nil {
+		panic(fmt.Sprintf("export: %v", err))
+	}
+	var buf bytes.Buffer
+	if err := se.StreamTo(&buf); err != nil {
+		panic(fmt.Sprintf("stream: %v", err))
+	}
+	se.Close()
+	// what is in the stream
+	var members []string
+	tr := tar.NewReader(bytes.NewReader(buf.Bytes()))
+	for {
+		hdr, err := tr.Next()
+		if err != nil {
+			break
+		}
+		body, _ := io.ReadAll(tr)
+		kind := "MFile"
+		if hdr.Typeflag == tar.TypeDir {
+			kind = "MDir"
+		}
+		members = append(members, fmt.Sprintf("{| m_name := %s; m_kind := %s; m_body := %s; m_valid := true |}", vh.CoqBytes(hdr.Name), kind, vh.CoqBytes(string(body))))
+		// the snapshot files are exported in the order Iter meets them (readdir order): list them in that order
+		if pair, ok := fileOf[strings.TrimPrefix(hdr.Name, fmt.Sprintf("%d_", in.From))]; ok {
+			files = append(files, pair)
+			delete(fileOf, strings.TrimPrefix(hdr.Name, fmt.Sprintf("%d_", in.From)))
+		}
+	}
+	for _, pair := range fileOf { // not exported at all: keep them so that the model disagrees
+		files = append(files, pair)
+	}
+	var ws []string
+	recording := true
+	oldOpen := backendOpen
+	backendOpen = func(fn string, setID uint64) (*Reader, error) {
+		if recording {
+			data, _ := os.ReadFile(fn)
+			ws = append(ws, "("+c32CoqPath(c32Comps(fn))+", "+vh.CoqBytes(string(data))+")")
+		}
+		return Open(fn, setID) // the real thing: the imported files are real snapshots
+	}
+	defer func() { backendOpen = oldOpen }()
+	names, ierr := Import(context.Background(), in.To, bytes.NewReader(buf.Bytes()), &ImportFlags{NoDuplicatedImportCheck: true})
+	recording = false
+	var finals []string
+	filepath.Walk(S, func(p string, fi os.FileInfo, err error) error {
+		if err == nil && fi.Mode().IsRegular() {
+			data, _ := os.ReadFile(p)
+			finals = append(finals, "("+c32CoqPath(c32Comps(p))+", "+vh.CoqBytes(string(data))+")")
+		}
+		return nil
+	})
+	coq := fmt.Sprintf("(RoundTripCase %s %s %s %s %s %s %s %s)", c32CoqPath(sdir), vh.CoqBytes(fmt.Sprint(in.From)), vh.CoqBytes(fmt.Sprint(in.To)),
+		vh.CoqList(files), vh.CoqList(members), vh.CoqList(ws), vh.CoqBool(ierr == nil), vh.CoqList(finals))
+	tags := []string{"roundtrip", fmt.Sprintf("roundtrip-snaps-%d", len(in.Snaps))}
+	if ierr != nil {
+		tags = append(tags, "ROUNDTRIP-FAILED")
+	}
+	return vh.Out{Observed: map[string]interface{}{"ok": ierr == nil, "names": names, "members": len(members)}, Coq: coq, NonTrivial: true, Tags: tags}
 }
 
 // ------------------------------------------------------------------ tree digests
@@ -190,13 +300,15 @@ func c32ExecImport(in *c32Import) vh.Out {
 		if hdr.Typeflag != tar.TypeReg {
 			body = ""
 		}
-		members = append(members, fmt.Sprintf("{| m_name := %s; m_kind := %s; m_body := %s |}", vh.CoqBytes(m.Name), kind, vh.CoqBytes(body)))
+		// the recorder standing in for Open + Check rejects a written file whose path (below the snapshots dir) contains BAD
+		members = append(members, fmt.Sprintf("{| m_name := %s; m_kind := %s; m_body := %s; m_valid := %s |}", vh.CoqBytes(m.Name), kind, vh.CoqBytes(body),
+			vh.CoqBool(!strings.Contains(m.Name, "BAD"))))
 	}
 	tw.Flush()
 	stream := buf.Bytes()
 	if in.GarbageAfter >= 0 && in.GarbageAfter <= len(in.Members) {
 		stream = append(append([]byte{}, stream...), bytes.Repeat([]byte{0xff}, 512)...)
-		members = append(members, "{| m_name := []; m_kind := MTarErr; m_body := [] |}")
+		members = append(members, "{| m_name := []; m_kind := MTarErr; m_body := []; m_valid := true |}")
 	} else {
 		tw.Close()
 		stream = buf.Bytes()
@@ -209,6 +321,9 @@ func c32ExecImport(in *c32Import) vh.Out {
 		written = append(written, c32Comps(fn))
 		data, _ := os.ReadFile(fn)
 		contents = append(contents, string(data))
+		if strings.Contains(strings.TrimPrefix(fn, S), "BAD") {
+			return nil, fmt.Errorf("not a snapshot")
+		}
 		f, err := os.Open(fn)
 		if err != nil {
 			return nil, err
@@ -228,7 +343,18 @@ func c32ExecImport(in *c32Import) vh.Out {
 	files := fmt.Sprintf("[(%s, %s); (%s, %s)]",
 		c32CoqPath(append(append([]string{}, sdir...), fmt.Sprintf("%d_old.zip", in.ID))), vh.CoqBytes("old"),
 		c32CoqPath(append(append([]string{}, sdir...), "9_other_1.0_1.zip")), vh.CoqBytes("other"))
-	coq := fmt.Sprintf("(ImportCase %s %s [%s] %s %s %s %s %s)", c32CoqPath(sdir), vh.CoqBytes(fmt.Sprint(in.ID)),
+	// the regular files below the snapshots directory after Import returned
+	var finals []string
+	finalObs := map[string]string{}
+	filepath.Walk(S, func(p string, fi os.FileInfo, err error) error {
+		if err == nil && fi.Mode().IsRegular() {
+			data, _ := os.ReadFile(p)
+			finals = append(finals, "("+c32CoqPath(c32Comps(p))+", "+vh.CoqBytes(string(data))+")")
+			finalObs[strings.TrimPrefix(p, S)] = string(data)
+		}
+		return nil
+	})
+	coq := fmt.Sprintf("(ImportCase %s %s [%s] %s %s %s %s %s "+vh.CoqList(finals)+")", c32CoqPath(sdir), vh.CoqBytes(fmt.Sprint(in.ID)),
 		c32CoqPath(append(append([]string{}, sdir...), sub)), files, vh.CoqList(members), vh.CoqList(ws), vh.CoqBool(ierr == nil), vh.CoqBool(before == after))
 	var rel []string
 	for _, w := range written {
@@ -251,7 +377,7 @@ func c32ExecImport(in *c32Import) vh.Out {
 	if before != after {
 		tags = append(tags, "OUTSIDE-CHANGED")
 	}
-	return vh.Out{Observed: map[string]interface{}{"ok": ierr == nil, "written": rel, "contents": contents, "outside_unchanged": before == after},
+	return vh.Out{Observed: map[string]interface{}{"ok": ierr == nil, "written": rel, "contents": contents, "outside_unchanged": before == after, "final": finalObs},
 		Coq: coq, NonTrivial: len(written) > 0 || (ierr != nil && len(in.Members) > 0), Tags: tags}
 }
 
@@ -568,7 +694,7 @@ func c32ExecRestore(in *c32Restore) vh.Out {
 
 func c32GenName(r *vh.Rand) string {
 	pre := r.Pick([]string{"1", "5", "12", "", "/1", "../1", "a/1", "/etc/passwd", "x"})
-	rest := r.Pick([]string{"foo_1.0_3.zip", "foo.zip", "..", "../x", "d/x", "d/..", "d/../..", "d/../../x", "/etc/passwd", "/../../x", "d/../../x", "d/../../../x", "d/../../state.json",
+	rest := r.Pick([]string{"foo_1.0_3.zip", "foo.zip", "BAD_1_2.zip", "fooBAD.zip", "a.zip", "b_1_1.zip", ".zip", "x.zip.bak", "zip", "..", "../x", "d/x", "d/..", "d/../..", "d/../../x", "/etc/passwd", "/../../x", "d/../../x", "d/../../../x", "d/../../state.json",
 		"a/b", "", ".", "./x", "d//x", "d/./x", "..zip", "...", ".../x", "d/..x", "d/x..", "x/", "importing", "old.zip", "d", "d/", "..\\x"})
 	switch r.Intn(8) {
 	case 0:
@@ -685,6 +811,12 @@ func c32Gen(r *vh.Rand, tier string, n int) []c32In {
 	ins = append(ins,
 		c32In{Import: &c32Import{ID: 7, GarbageAfter: -1, Members: []c32Member{{Name: "1_a.zip", Kind: "file", Body: "xyzxyz"}, {Name: "2_a.zip", Kind: "file", Body: "zz"}, {Name: "export.json", Kind: "file"}}}},
 		c32In{Import: &c32Import{ID: 7, GarbageAfter: -1, Members: []c32Member{{Name: "1_a.zip", Kind: "file", Body: "z"}, {Name: "1_a.zip", Kind: "file", Body: "xyzxyz"}, {Name: "1_old.zip", Kind: "file", Body: "y"}, {Name: "export.json", Kind: "file"}}}})
+	// commit / cancel: a rejected member after accepted ones (everything <id>_*.zip is removed again, other names stay)
+	ins = append(ins,
+		c32In{Import: &c32Import{ID: 7, GarbageAfter: -1, Members: []c32Member{{Name: "1_a.zip", Kind: "file", Body: "xy"}, {Name: "1_keep", Kind: "file", Body: "k"}, {Name: "1_d/n.zip", Kind: "file", Body: "n"}, {Name: "1_BAD.zip", Kind: "file", Body: "z"}, {Name: "1_never.zip", Kind: "file", Body: "z"}, {Name: "export.json", Kind: "file"}}}},
+		c32In{Import: &c32Import{ID: 7, GarbageAfter: -1, Members: []c32Member{{Name: "1_a.zip", Kind: "file", Body: "xy"}, {Name: "1_importing", Kind: "file", Body: "lock"}, {Name: "export.json", Kind: "file"}}}},
+		c32In{Import: &c32Import{ID: 7, GarbageAfter: -1, Members: []c32Member{{Name: "1_a.zip", Kind: "file", Body: "xy"}, {Name: "1_b.zip", Kind: "file", Body: "b"}}}},
+		c32In{Import: &c32Import{ID: 7, GarbageAfter: 2, Members: []c32Member{{Name: "1_a.zip", Kind: "file", Body: "xy"}, {Name: "1_.zip", Kind: "file", Body: "b"}, {Name: "export.json", Kind: "file"}}}})
 	// fixed restore corner cases: two entries, the second corrupted, pre-existing data everywhere
 	full := func() map[string]c32Tree {
 		return map[string]c32Tree{"common": {"a": "old"}, "2": {"b": "old"}, "other": {"c": "keep"}}
@@ -697,6 +829,16 @@ func c32Gen(r *vh.Rand, tier string, n int) []c32In {
 				{Name: "user/u1.tgz", Init: full(), Archive: arch(), Corrupt: c, CutAt: 60},
 				{Name: "user/u2.tgz", Init: nil, Archive: arch()}}, CheckUsers: map[string][]string{"none": nil, "cleanup": {"u2"}, "revert": {"u1"}}[after]}})
 		}
+	}
+	// export -> import round trips over real snapshot files
+	for i := 0; i < 3+n/25; i++ {
+		rt := &c32Round{From: uint64(r.Range(1, 9)), To: uint64(r.Range(10, 40))}
+		k := r.Range(1, 3)
+		for j := 0; j < k; j++ {
+			rt.Snaps = append(rt.Snaps, c32RSnap{Name: []string{"foo", "bar-baz", "q"}[j], Version: r.Pick([]string{"1", "1.0", "2.0~rc1+git", "v_1", "1..2"}), Rev: r.Range(1, 99),
+				Archive: map[string]c32Tree{"common": c32GenTree(r), fmt.Sprint(r.Range(1, 9)): c32GenTree(r)}})
+		}
+		ins = append(ins, c32In{Round: rt})
 	}
 	for i := 0; i < n; i++ {
 		if i%4 != 3 {
@@ -713,6 +855,9 @@ func TestVerifC32Snapshot(t *testing.T) {
 	vh.Run(c32Gen, func(in c32In) vh.Out {
 		if in.Import != nil {
 			return c32ExecImport(in.Import)
+		}
+		if in.Round != nil {
+			return c32ExecRound(in.Round)
 		}
 		return c32ExecRestore(in.Restore)
 	})
